@@ -457,9 +457,21 @@ class Facts:
     # ---------------------------------------------------------------- transfer
     def _kill_mentions(self, env: dict, ident: str) -> None:
         pat = re.compile(rf'(?<![\w.]){re.escape(ident)}(?![\w])')
+        frozen: dict[str, str] = {}
+        for a in list(env):
+            if not pat.search(a) and isinstance(env[a], str) and env[a].startswith('=') and pat.search(env[a]):
+                # a local that remembers a test over the name being rebound (`was_none = x is None` ... `x = f()`): the test was taken when it was bound, so its value then is
+                # the local's value from now on — if it is decided by what is known at this point
+                try:
+                    r = self.eval(ast.parse(env[a][1:], mode='eval').body, {k: w for k, w in env.items() if k != a})
+                except SyntaxError:
+                    r = None
+                if r is not None:
+                    frozen[a] = 'T' if r else 'F'
         for a in list(env):
             if pat.search(a) or (isinstance(env[a], str) and env[a].startswith('=') and pat.search(env[a])):
                 del env[a]
+        env.update(frozen)
 
     def transfer(self, n: Node, env: dict) -> dict:
         env = self._transfer(n, env)
